@@ -597,8 +597,8 @@ func OpenDiscard(path string, key tink.AEAD) (*db.DB, error) {
 // ---------------------------------------------------------------- generators
 
 var BaseNames = []string{"a", "b", "dev/c"}
-var OddNames = []string{"", "_internal/x", "a ", " dev/c"}
-var ValuePool = [][]byte{{}, []byte("x"), []byte("y"), []byte("zz"), nil}
+var OddNames = []string{"", "_internal/x", "a ", " dev/c", "_internal/a"}
+var ValuePool = [][]byte{{}, []byte("x"), []byte("y"), []byte("zz"), nil, []byte(" "), []byte("x\n"), []byte("x")}
 var vsels = []string{"zero", "active", "latest", "next", "existing", "existing", "deleted", "huge", "abs"}
 var opKindsMut = []string{"put", "put", "put", "activate", "activate", "delver", "delver", "del", "get", "getver", "cond", "info", "list"}
 
